@@ -1,4 +1,5 @@
 mod common;
+mod c15;
 mod c05;
 mod c16;
 mod c11;
@@ -15,6 +16,7 @@ fn main() {
         "C11" => c11::run(&args),
         "C16" => c16::run(&args),
         "C05" => c05::run(&args),
+        "C15" => c15::run(&args),
         x => {
             eprintln!("unknown property {}", x);
             std::process::exit(2);
